@@ -19,7 +19,8 @@ RULE = ("full in-memory stack: real Router + 1..3 generated drivers (1-3 groups,
         "delivers nothing for 3..60 scheduling rounds while the handshake is in flight and the drivers already change state, and is "
         "released only after the control connection went quiet (stale copies arrive last); in every third session a further client is "
         "attached through the real TTY ConnectionHandler, whose stdout suspends inside write() and flush(), and is mirrored by a "
-        "reference client reading what was written. At every quiescent checkpoint (a) the library client's public "
+        "reference client reading what was written; in every fourth session the application finally stops its Client, the devices go on "
+        "changing (at least one whole group switched off) and the same Client object, mirror kept, is started again. At every quiescent checkpoint (a) the library client's public "
         "view and (b) a reference client fed with the very bytes of the control connection are compared with the expectation "
         "derived from the generated definition, the tracked enable flags/states and the drivers' public values. "
         "non-trivial = >=1 driver-side and >=1 client-side operation and >= 2 properties in the final mirror; "
@@ -27,7 +28,7 @@ RULE = ("full in-memory stack: real Router + 1..3 generated drivers (1-3 groups,
 ASSUMPTIONS = ["BLOB payloads are compared by C08; Element.enabled toggles at run time are not in the quantifier",
                "numbers are compared numerically within the format's resolution",
                "a device without enabled properties may or may not be listed"]
-REQUIRED_EVENTS = ["sessions", "sessions_with_a_slow_blob_connect", "client_submits_with_nothing_assigned", "client_handshakes_for_one_device", "sessions_with_a_tty_client", "tty_client_properties_compared", "sessions_with_lagging_blob_link", "driver_ops_during_handshake", "checkpoints", "library_client_properties_compared", "reference_mirror_messages",
+REQUIRED_EVENTS = ["sessions", "sessions_with_a_slow_blob_connect", "client_submits_with_nothing_assigned", "client_handshakes_for_one_device", "sessions_with_a_tty_client", "tty_client_properties_compared", "sessions_with_lagging_blob_link", "client_restarts_with_kept_mirror", "driver_ops_while_client_disconnected", "driver_ops_during_handshake", "checkpoints", "library_client_properties_compared", "reference_mirror_messages",
                    "snooping_client_checkpoints", "ops_with_bytes_in_flight", "depth3_sessions"]
 
 QUICK_SHARDS = 4
@@ -209,6 +210,58 @@ async def checkpoint(ctx, case, sess, client, drivers, specs, tracks, mirror, sn
     return True
 
 
+async def reconnect_phase(ctx, case, sess, client, drivers, specs, tracks, snooper, tap):
+    """The application stops its client (both connections close), the devices go on changing - values, states, and whole
+    groups and single properties switched off or on - and the SAME Client object, which kept its mirror, is started again.
+    After its handshake it must again show exactly what the devices offer."""
+    rng = ctx.rng("reconnect", case["i"])
+    old_links = client._vf_links
+    try:
+        client.stop()
+    except Exception as e:
+        ctx.violate(f"client-stop-raises:{type(e).__name__}", f"Client.stop() raised {e!r}", case, {"step": "stop"})
+        return False
+    for link in old_links:
+        link.s2c.hold = True              # a closed socket delivers nothing further
+        link.c_reader.feed_eof()
+    if await sess.quiesce() < 0:
+        ctx.violate("stall:loop-does-not-quiesce", "event loop did not become quiescent after Client.stop()", case, {"step": "stop"})
+        return False
+    failed = sess.mon.failed()
+    if failed:
+        ctx.violate(f"task-died:{failed[0][0].split('.')[-1]}", f"task {failed[0][0]} ended with {failed[0][1]} after Client.stop()", case, {"step": "stop"})
+        return False
+    sess.mon.tasks = [t for t in sess.mon.tasks if not t.done()]          # the closed connections' loops have ended, as they should
+    ops = []
+    for k, spec in enumerate(specs):
+        groups = sorted({ga for ga, _, _, _ in D.locate(spec)})
+        if groups and rng.random() < 0.8:
+            ops.append((k, ["genable", k, rng.choice(groups), False]))
+    for _ in range(rng.choice([2, 5, 9])):
+        k = rng.randrange(len(specs))
+        ops.append((k, H.gen_driver_op(rng, k, specs[k])))
+    rng.shuffle(ops)
+    for k, op in ops:
+        try:
+            H.apply_driver_op(drivers[k], specs[k], op)
+            tracks[k].apply(op)
+        except Exception as e:
+            ctx.violate(f"driver-operation-raises:{op[0]}:{type(e).__name__}", f"{op} raised {e!r}", case, {"step": "while-disconnected"})
+            return False
+        ctx.count("driver_ops_while_client_disconnected")
+    sess.connect_delay.clear()
+    try:
+        await client.start()
+    except Exception as e:
+        ctx.violate(f"client-restart-raises:{type(e).__name__}", f"Client.start() after stop() raised {e!r}", case, {"step": "restart"})
+        return False
+    client._vf_links = (client.control_connection.link, client.blob_connection.link)
+    # the reference client keeps its mirror across the two sessions too: it reads the bytes of all four connections
+    mirror = fullstack.MultiMirror([l.s2c for l in old_links] + [l.s2c for l in client._vf_links])
+    ctx.count("client_restarts_with_kept_mirror")
+    return await checkpoint(ctx, case, sess, client, drivers, specs, tracks, mirror, snooper, "reconnected", tap)
+
+
 async def session(ctx, case):
     from indi.routing import Router
     rng = ctx.rng("ops", case["i"])
@@ -347,6 +400,8 @@ async def session(ctx, case):
                 ctx.violate(f"exception-escapes-router:{type(e).__name__}", f"{e!r} escaped Router.process_message", case, {"step": step})
                 return False, ndrv, ncli
         ok = await checkpoint(ctx, case, sess, client, drivers, specs, tracks, mirror, snooper, "final", tap)
+        if ok and case["i"] % 4 == 1:
+            ok = await reconnect_phase(ctx, case, sess, client, drivers, specs, tracks, snooper, tap)
         ctx.counters["reference_mirror_messages"] = ctx.counters.get("reference_mirror_messages", 0) + mirror.messages
         nprops = sum(len(DV.expected_device(d, s, t)) for d, s, t in zip(drivers, specs, tracks))
         await sess.close()
